@@ -259,6 +259,69 @@ pub fn check_stream(stream: &str, diags: &[DiagObs], cfg: &Config, fam: &str, ou
             );
             return;
         }
+        // the whole stream, line by line: per diagnostic the headline with EVERY line of its message, its snippet if it
+        // has a span, then per note "note: " with every line of the NOTE's message and its snippet - and nothing else
+        {
+            let lines: Vec<&str> = text.split('\n').collect();
+            let mut k = 0usize;
+            let gutter = |l: &str| l.trim_start().trim_start_matches(|c: char| c.is_ascii_digit()).trim_start().starts_with('|');
+            let mut problem: Option<String> = None;
+            let mut expect_text = |k: &mut usize, what: &str, full: &str| -> Option<String> {
+                for (j, want) in full.split('\n').enumerate() {
+                    let got = lines.get(*k).copied();
+                    if got.map(|g| g.trim_end_matches('\r')) != Some(want.trim_end_matches('\r')) {
+                        return Some(format!("{what}: line {j} of the text must be {want:?} but stream line {} is {got:?}", *k + 1));
+                    }
+                    *k += 1;
+                }
+                None
+            };
+            let mut skip_snippet = |k: &mut usize, what: &str, f: &str, s: &crate::model::tree::Sp| -> Option<String> {
+                let want = format!(" --> {}:{}:{}", f, s.sr, s.sc);
+                if lines.get(*k).copied() != Some(want.as_str()) {
+                    return Some(format!("{what}: expected the location line {want:?} at stream line {}, found {:?}", *k + 1, lines.get(*k)));
+                }
+                *k += 1;
+                while lines.get(*k).map_or(false, |l| gutter(l)) {
+                    *k += 1;
+                }
+                None
+            };
+            'all: for (i, d) in emitted.iter().enumerate() {
+                let what = format!("diagnostic #{i} ({} {})", d.level, d.code);
+                if let Some(p) = expect_text(&mut k, &what, &format!("{} [{}]: {}", d.level, d.code, d.message)) {
+                    problem = Some(p);
+                    break 'all;
+                }
+                if let (Some(f), Some(sp)) = (&d.file, &d.span) {
+                    if let Some(p) = skip_snippet(&mut k, &what, f, sp) {
+                        problem = Some(p);
+                        break 'all;
+                    }
+                }
+                for (ni, (nmsg, nspan)) in d.notes.iter().enumerate() {
+                    let what = format!("{what}, note #{ni}");
+                    if let Some(p) = expect_text(&mut k, &what, &format!("note: {nmsg}")) {
+                        problem = Some(p);
+                        break 'all;
+                    }
+                    if let Some((f, sp)) = nspan {
+                        if let Some(p) = skip_snippet(&mut k, &what, f, sp) {
+                            problem = Some(p);
+                            break 'all;
+                        }
+                    }
+                }
+            }
+            if problem.is_none() {
+                if let Some(extra) = lines[k.min(lines.len())..].iter().find(|l| !l.trim().is_empty()) {
+                    problem = Some(format!("after the last diagnostic the stream goes on with {extra:?}"));
+                }
+            }
+            if let Some(p) = problem {
+                out.violate(format!("c14/{fam}/human/stream-is-not-the-diagnostics-in-order"), format!("{p}\n--- stream ---\n{}\n{}", truncate(&text, 2000), input()));
+            }
+        }
         for (i, d) in emitted.iter().enumerate() {
             // note messages may also contain line breaks: count notes by the API, lines starting with "note: " >= notes
             if notes_after[i] != d.notes.len() {
@@ -569,6 +632,10 @@ impl Family for Binary {
         if !cfg.color && (stderr.contains('\u{1b}') || stdout.contains('\u{1b}')) {
             out.violate("c14/binary/escape-sequence-with-colours-disabled", input());
         }
+        // VALUES through the binary: the file names of this family (quotes, backslash, tab, non-ASCII) must arrive as
+        // they are - in the file of every span, in every location line, in the messages that quote a path
+        let known_files = [name, "other é.slice"];
+        let mut messages: Vec<String> = vec![];
         let (errors, warnings);
         if cfg.json {
             let mut e = 0;
@@ -576,6 +643,13 @@ impl Family for Binary {
             for line in stderr.lines() {
                 match serde_json::from_str::<Value>(line) {
                     Ok(v) if v.is_object() => {
+                        messages.push(v["message"].as_str().unwrap_or("").to_string());
+                        let spans = std::iter::once(&v["span"]).chain(v["notes"].as_array().into_iter().flatten().map(|n| &n["span"]));
+                        for sp in spans.filter(|sp| !sp.is_null()) {
+                            if !sp["file"].as_str().map_or(false, |f| known_files.contains(&f)) {
+                                out.violate("c14/binary/json/file-name-of-a-span", format!("span {sp} names a file that is none of {known_files:?}\n{}", input()));
+                            }
+                        }
                         let mut keys: Vec<&str> = v.as_object().unwrap().keys().map(|k| k.as_str()).collect();
                         keys.sort();
                         if keys != ["error_code", "message", "notes", "severity", "span"] {
@@ -605,12 +679,47 @@ impl Family for Binary {
             let t = strip_ansi(&stderr);
             errors = t.lines().filter(|l| l.starts_with("error [")).count();
             warnings = t.lines().filter(|l| l.starts_with("warning [")).count();
+            messages.extend(t.lines().filter(|l| l.starts_with("error [") || l.starts_with("warning [")).map(|l| l.to_string()));
+            for l in t.lines().filter(|l| l.starts_with(" --> ")) {
+                let rest = &l[5..];
+                let ok = known_files.iter().any(|f| rest.strip_prefix(f).and_then(|r| r.strip_prefix(':')).map_or(false, |rc| rc.split(':').count() == 2 && rc.split(':').all(|x| x.parse::<usize>().is_ok())));
+                if !ok {
+                    out.violate("c14/binary/human/file-name-of-a-location-line", format!("location line {l:?} does not name one of {known_files:?} followed by :row:column\n{}", input()));
+                }
+            }
             let so = strip_ansi(&stdout);
             let num_after = |marker: &str| -> Option<usize> { so.lines().find(|l| l.contains(marker)).and_then(|l| l.split(marker).nth(1)).and_then(|r| r.trim().split(' ').next().map(|x| x.to_string())).and_then(|x| x.parse().ok()) };
             let sw = num_after("Compilation generated").unwrap_or(0);
             let se = num_after("Compilation failed with").unwrap_or(0);
+            // (the other face of the open finding: in the human format the generator's diagnostic is a bare line on
+            // stdout too - shown, but neither styled as a diagnostic nor counted in the summary)
+            if shape == 12 && so.lines().any(|l| l.trim() == "a warning from the generator") && sw == warnings {
+                out.violate("c14/binary/human/diagnostic-of-a-generator-printed-as-plain-text-and-not-counted", input());
+            }
             if sw != warnings || se != errors {
                 out.violate("c14/binary/human/summary-counts", format!("summary says {sw} warning(s) / {se} error(s) but {warnings} / {errors} were shown\n{}", input()));
+            }
+        }
+        // a message of several lines is shown with all of them (the text a generator wrote to its stderr is the second
+        // line of the error about that generator)
+        if shape == 11 {
+            let said = "generator says \"oops\"";
+            let shown = if cfg.json { messages.iter().any(|m| m.lines().skip(1).any(|l| l == said)) } else { strip_ansi(&stderr).lines().any(|l| l == said) };
+            if !shown {
+                out.violate("c14/binary/later-lines-of-a-message-missing", format!("the error about the generator must carry what it wrote to its stderr ({said:?}) as a line of its own\n{}", input()));
+            }
+        }
+        // messages that quote a path quote it as it was given
+        let quoted = match shape {
+            4 => Some("missing file.slice"),
+            5 if cfg.allow != 2 => Some(name),
+            6 => Some("a dir"),
+            _ => None,
+        };
+        if let Some(q) = quoted {
+            // (the JSON value is unescaped by the parser; the human line shows the text as it is)
+            if !messages.iter().any(|m| m.contains(q)) {
+                out.violate("c14/binary/path-in-a-message", format!("shape {shape}: no message quotes the path {q:?}; messages: {messages:?}\n{}", input()));
             }
         }
         let code = obs.exit_code.unwrap_or(-1);
